@@ -445,6 +445,8 @@ class Interp:
             r.unit = None
             r.frame = None
             r.fresh = "FRESH"
+            if v.tag("zero_row_mask_of") is not None:
+                r.tags["zero_row_mask_inverted"] = not v.tag("zero_row_mask_inverted", False)
             return r
         if isinstance(e.op, ast.USub) and v.tag("cvx"):
             from .ext_models import cvx_expr
@@ -502,6 +504,7 @@ class Interp:
                         out.const = not pos
             self.qty_compare(e, l, r)
             self.elementwise_shape(e, out, l, r)
+            out.tags["cmp"] = (type(op).__name__, l, r)
             return out
         if isinstance(op, (ast.Lt, ast.LtE, ast.Gt, ast.GtE)):
             from .extern import _conc
@@ -786,6 +789,9 @@ class Interp:
         if fv.tag("repoclass"):
             self.emit("construct", e, cls=fv.tag("repoclass"), args=args, kws=kws)
             return self.opaque_call(e, args, kws)
+        if fv.tag("typeof") is not None and fv.tag("typeof").tag("kind") == "qmc":
+            from .ext_models import m_qmc_engine
+            return m_qmc_engine(self, e, args, kws)
         if fv.tag("extclass_call") is not None:
             return call_extern(self, e, fv.tag("extclass_call"), args, kws)
         self.emit("opaque_callee", e, callee=fv, args=args, kws=kws)
@@ -1233,7 +1239,8 @@ class Interp:
             if base.unit is not None and v.unit is not None:
                 ok, _ = ueq(base.unit, v.unit)
                 if not ok:
-                    self.type_error(node, "QTY", f"store of [{ustr(v.unit)}] into an array of [{ustr(base.unit)}]")
+                    self.type_error(node, "QTY", f"store of [{ustr(v.unit)}] into an array of [{ustr(base.unit)}]",
+                                    sub=("literal" if (v.unit == ONE and (v.tag("ones") or v.tag("isnum") or v.known)) else "mismatch"))
             f = v.flat()
             i = idx.flat()
             nb = base.copy()
@@ -1255,8 +1262,18 @@ class Interp:
                     nb.sign = v.sign if v.sign in ("NONNEG", "POS") else None
             else:
                 nb.sign = None
-            if v.tag("simplex") and base.tag("zero_init"):
-                nb.tags["simplex"] = True
+            if v.tag("simplex_rows") and (base.tag("zero_init") or base.tag("simplex_rows")):
+                nb.tags["simplex_rows"] = True
+                nb.sign = "NONNEG"
+            elif base.tag("simplex_rows"):
+                nb.tags.pop("simplex_rows", None)
+            if idx.tag("zero_row_mask_of") is not None and not idx.tag("zero_row_mask_inverted"):
+                nb.tags.pop("maybe_zero_rows", None)     # the all-zero rows are overwritten
+            cmp_ = idx.tag("cmp")
+            if cmp_ is not None and cmp_[0] in ("LtE", "Lt") and cmp_[2].known and cmp_[2].const == 0 \
+                    and cmp_[1].term == base.term and v.tag("extconst") == "numpy.nan":
+                nb.tags["pos_or_nan"] = True        # x[x <= 0] = nan : only positive multiples survive
+                nb.sign = "POS"
             nb.term = mk_term("stored", base.term, f.term)
             if isinstance(t.value, ast.Name):
                 fr.env[t.value.id] = nb
